@@ -24,6 +24,9 @@ enum Ev {
 #[derive(Clone, Serialize, Deserialize, Debug)]
 struct Case {
     bystander: bool,
+    /// an older connection of the SAME endpoint is already registered when the gated one is admitted
+    #[serde(default)]
+    dup: bool,
     events: Vec<Ev>,
 }
 
@@ -49,6 +52,18 @@ fn run_case(case: &Case) -> Out {
             }
             by_ws = Some((w.unwrap(), l.pump, l.accept));
         }
+        // optional older connection of the revoked endpoint itself (registered, undisturbed)
+        let mut old_ws = None;
+        if case.dup {
+            let l = start_link(&service, 0, false, Header::None, Cut::None);
+            settle().await;
+            let (r, w) = l.client.await.unwrap();
+            if r.is_err() || w.is_none() {
+                machinery_error(&format!("older duplicate could not connect: {r:?}"));
+            }
+            old_ws = Some((DrainedClient::new(w.unwrap()), l.pump, l.accept));
+        }
+        let admitted_before = policy.log.lock().unwrap().len();
         seams::arm(GATE);
         let link = start_link(&service, 0, false, Header::None, Cut::None);
         settle().await;
@@ -60,11 +75,13 @@ fn run_case(case: &Case) -> Out {
             .lock()
             .unwrap()
             .iter()
+            .skip(admitted_before)
             .find_map(|e| if let vh_p_relay::acceptnet::Ev::Connect { id, conn, allowed: true } = e { if *id == secret(0).public() { Some((*id, *conn)) } else { None } } else { None })
             .unwrap_or_else(|| machinery_error("no admission logged"));
         let mut released = false;
         let mut all_requests_before_registration = true;
         let mut request_results = Vec::new();
+        let mut by_id_requests = 0;
         let mut registered_quiescent = false;
         for ev in &case.events {
             match ev {
@@ -81,6 +98,9 @@ fn run_case(case: &Case) -> Out {
                 Ev::DiscConn | Ev::DiscId => {
                     let found = service.clients().disconnect(id, if *ev == Ev::DiscConn { Some(conn) } else { None });
                     request_results.push(found);
+                    if *ev == Ev::DiscId {
+                        by_id_requests += 1;
+                    }
                     if registered_quiescent {
                         all_requests_before_registration = false;
                     }
@@ -135,6 +155,22 @@ fn run_case(case: &Case) -> Out {
                 bystander_problem = Some("bystander endpoint was disconnected".to_string());
             }
         }
+        // ---- the older connection of the same endpoint: revoked with the endpoint, untouched by a per-connection request ----
+        let mut old_problem = None;
+        if let Some((w, _p, _a)) = old_ws.as_mut() {
+            let mut f = vec![9u8];
+            f.extend_from_slice(&[0x33; 8]);
+            w.send(Bytes::from(f));
+            settle().await;
+            settle().await;
+            let pong = w.got(10, &[0x33; 8]);
+            if by_id_requests > 0 && pong {
+                old_problem = Some(format!("the endpoint was revoked by id ({by_id_requests} request(s)) but its older connection is still served"));
+            }
+            if by_id_requests == 0 && !pong {
+                old_problem = Some("only the new connection was revoked (by connection id) but the endpoint's older connection is no longer served".to_string());
+            }
+        }
         let any_request = !request_results.is_empty();
         let outcome = format!(
             "accept_ok={accept_ok} requests={request_results:?} served={served:?} disconnect_notified={disconnect_seen}"
@@ -142,16 +178,19 @@ fn run_case(case: &Case) -> Out {
         let mut problem = None;
         if let Some(p) = bystander_problem {
             problem = Some((None, p));
+        } else if let Some(p) = old_problem {
+            problem = Some((None, format!("{p} ({outcome}) after events {:?}", case.events)));
         } else if any_request && (served.iter().any(|s| *s == "ping-answered" || *s == "still-registered")) {
             // named deviation: a request made while the connection is admitted but not yet registered finds
             // nothing (returns false) and is forgotten; the connection registers afterwards and is served
-            let key = if all_requests_before_registration && request_results.iter().all(|r| !*r) { Some("revocation-before-registration-is-lost") } else { None };
+            let key = if all_requests_before_registration && (case.dup || request_results.iter().all(|r| !*r)) { Some("revocation-before-registration-is-lost") } else { None };
             problem = Some((key, format!("revoked connection is still served ({outcome}) after events {:?}", case.events)));
         } else if any_request && !disconnect_seen {
             problem = Some((None, format!("revoked connection not served but its disconnect was never reported ({outcome})")));
         }
         drop(ws);
         drop(by_ws);
+        drop(old_ws);
         settle().await;
         Out { outcome, problem }
     });
@@ -184,7 +223,9 @@ fn main() {
             continue;
         }
         for bystander in [false, true] {
-            cases.push(Case { bystander, events: seq.clone() });
+            for dup in [false, true] {
+                cases.push(Case { bystander, dup, events: seq.clone() });
+            }
         }
     }
     ctx.bound("max_sequence_length", max_len);
